@@ -60,7 +60,7 @@ def run_tlc(module, cfg, workers=1, timeout=600, env=None, coverage=False,
     """
     spec_dir = spec_dir or SPEC_DIR
     meta = tempfile.mkdtemp(prefix='tlcmeta_')
-    props = []
+    props = ['-Djava.io.tmpdir=' + meta]      # TLC leaves an empty tlc-<n> directory per run in java.io.tmpdir
     if dfs:
         props.append('-Dtlc2.tool.queue.IStateQueue=StateDeque')
     cmd = _java_cmd(props, heap) + ['-workers', str(workers), '-metadir', meta,
